@@ -186,7 +186,7 @@ def run(chk: core.Check) -> int:
     # ---- (2) hash-seed / history differential on the real code --------------------------------------------
     n = 150 if chk.quick else 600
     seeds = [0, 1, 2, 3, "random"] if chk.quick else list(range(0, 32)) + ["random", "random"]
-    jobs = [("plain", hs) for hs in seeds] + [("history", seeds[0]), ("history", seeds[1])]
+    jobs = [("plain", hs) for hs in seeds] + [("history", seeds[0]), ("history", seeds[1]), ("preimport", seeds[0])]
     with cf.ThreadPoolExecutor(core.NCPU) as ex:
         outs = list(ex.map(lambda j: run_batch(chk.seed, n, j[0], j[1]), jobs))
     ref = outs[0]
